@@ -95,7 +95,8 @@ type broker struct {
 	intercept func(m message.Message) (frames [][]byte, handled bool) // called with mu NOT held
 	pings     int
 	pingIDs   []uint32
-	requests  []string // type names of requests seen
+	requests  []string          // type names of requests seen
+	reqIDs    map[string]uint32 // last request id seen per request type
 	events    []string
 	nextAlias uint32
 	pingSeen  chan uint32 // every ping id (buffered, dropped when full)
@@ -185,8 +186,16 @@ func (b *broker) run() {
 			case b.pingSeen <- uint32(p.RequestID):
 			default:
 			}
-		} else if len(b.requests) < 200 {
-			b.requests = append(b.requests, msgType(m))
+		} else {
+			if len(b.requests) < 200 {
+				b.requests = append(b.requests, msgType(m))
+			}
+			if rq, ok := m.(message.Request); ok {
+				if b.reqIDs == nil {
+					b.reqIDs = map[string]uint32{}
+				}
+				b.reqIDs[msgType(m)] = rq.GetRequestID()
+			}
 		}
 		ic := b.intercept
 		b.mu.Unlock()
@@ -317,21 +326,28 @@ var wireCalls = []wireCall{
 	}},
 }
 
-// guarded runs f in its own goroutine with a recover; ok is false when it did not return within d (dump holds all
-// goroutine stacks then).
+// guarded runs f in its own goroutine with a recover. When f has not returned, the goroutine dumps are examined every
+// two seconds (see leakVerdict): a decisive dump ends the wait early with Decisive set; after d without a decisive dump the
+// call is given up (Returned false, Decisive false => inconclusive).
 type guardedResult struct {
 	Returned bool
 	Panic    any
 	Stack    string
-	Dump     string
 	Val      any
 	Err      error
+
+	Decisive bool // not returned, and the dumps show that it never can
+	StuckAt  string
+	Hint     string
+	Dump     string
 }
 
-func guarded(d time.Duration, f func() (any, error)) guardedResult {
+func guarded(d time.Duration, call string, f func() (any, error)) guardedResult {
 	var r guardedResult
 	var mu sync.Mutex
-	ok, dump := vrun.Watchdog(d, func() {
+	done := make(chan struct{})
+	go func() {
+		defer close(done)
 		var v any
 		var err error
 		var pv any
@@ -347,69 +363,97 @@ func guarded(d time.Duration, f func() (any, error)) guardedResult {
 		mu.Lock()
 		r.Val, r.Err, r.Panic, r.Stack = v, err, pv, st
 		mu.Unlock()
-	})
-	mu.Lock()
-	defer mu.Unlock()
-	if !ok {
-		return guardedResult{Returned: false, Dump: dump}
+	}()
+	start := time.Now()
+	for {
+		select {
+		case <-done:
+			mu.Lock()
+			defer mu.Unlock()
+			r.Returned = true
+			return r
+		case <-time.After(2 * time.Second):
+		}
+		dec, at, hint, dump := leakVerdict(call)
+		if dec {
+			return guardedResult{Decisive: true, StuckAt: at, Hint: hint, Dump: dump}
+		}
+		if time.Since(start) > d {
+			return guardedResult{Hint: hint, Dump: dump}
+		}
 	}
-	r.Returned = true
-	return r
 }
 
-// wedgeVerdict inspects the dump taken when a cooperative call did not return. It is decisive - independent of the
-// clock - when the stuck call waits for a library mutex while every goroutine that runs wire code is parked at a
-// blocking point that cannot be inside the (non-blocking) critical sections: then no goroutine holds the lock
-// legitimately, it was leaked, and the call can never return.
-func wedgeVerdict(dump string, call string) (decisive bool, stuckAt string, holderHint string) {
-	var stuck *vrun.Goroutine
-	gs := vrun.ParseStacks(dump)
-	for i := range gs {
-		g := &gs[i]
-		inCall, lockIdx := false, -1
-		for j, f := range g.Frames {
-			if strings.Contains(f, "wire.(*ClientConn)."+call) {
-				inCall = true
+func gid(header string) string {
+	f := strings.Fields(header)
+	if len(f) >= 2 {
+		return f[1]
+	}
+	return header
+}
+
+// leakVerdict decides, from goroutine dumps alone, whether a call that has not returned never can: the call's goroutine
+// waits for a sync mutex inside wire.(*ClientConn).<call>, and every other goroutine that executes wire code has been
+// seen parked at a channel operation, select, sleep or WaitGroup in at least one of the dumps taken while the call was
+// stuck. A holder of the lock would have to stay inside a critical section for that whole period, and the critical
+// sections of wire/client_conn.go contain no such blocking operation - so nobody holds the lock: it was leaked.
+func leakVerdict(call string) (decisive bool, stuckAt, hint, lastDump string) {
+	cleared := map[string]bool{}
+	seen := map[string]string{}
+	stuckID := ""
+	for round := 0; round < 12; round++ {
+		if round > 0 {
+			time.Sleep(40 * time.Millisecond) // sampling distance, not a deadline: more samples can only clear more goroutines
+		}
+		lastDump = vrun.AllStacks()
+		found := false
+		for _, g := range vrun.ParseStacks(lastDump) {
+			inCall, onLock, wireFrame := false, false, ""
+			for _, f := range g.Frames {
+				if strings.Contains(f, "wire.(*ClientConn)."+call) {
+					inCall = true
+				}
+				if strings.HasPrefix(f, "sync.(*RWMutex).Lock") || strings.HasPrefix(f, "sync.(*RWMutex).RLock") || strings.HasPrefix(f, "sync.(*Mutex).Lock") {
+					onLock = true
+				}
+				if wireFrame == "" && strings.Contains(f, "iscp-go/wire.") {
+					wireFrame = f
+				}
 			}
-			if lockIdx < 0 && (strings.HasPrefix(f, "sync.(*RWMutex).Lock") || strings.HasPrefix(f, "sync.(*RWMutex).RLock") || strings.HasPrefix(f, "sync.(*Mutex).Lock")) {
-				lockIdx = j
+			id := gid(g.Header)
+			if inCall && onLock && (stuckID == "" || stuckID == id) {
+				stuckID, stuckAt, found = id, g.InnermostLib(), true
+				continue
+			}
+			if wireFrame == "" {
+				continue
+			}
+			seen[id] = g.Header + " " + wireFrame
+			h := g.Header
+			if strings.Contains(h, "[chan receive") || strings.Contains(h, "[select") || strings.Contains(h, "[chan send") || strings.Contains(h, "[sleep") ||
+				strings.Contains(h, "[sync.WaitGroup.Wait") || strings.Contains(h, "[IO wait") {
+				cleared[id] = true
 			}
 		}
-		if inCall && lockIdx >= 0 {
-			stuck = g
-			stuckAt = g.InnermostLib()
-			break
+		if !found {
+			return false, "", "the call is not waiting for a lock", lastDump
+		}
+		all := true
+		for id := range seen {
+			if !cleared[id] {
+				all = false
+			}
+		}
+		if all && round >= 2 {
+			return true, stuckAt, fmt.Sprintf("%d goroutines executing wire code, each seen parked outside any critical section while the call was waiting", len(seen)), lastDump
 		}
 	}
-	if stuck == nil {
-		return false, "", ""
-	}
-	for _, g := range gs {
-		if g.Header == stuck.Header {
-			continue
-		}
-		wireFrame := ""
-		for _, f := range g.Frames {
-			if strings.Contains(f, "iscp-go/wire.") {
-				wireFrame = f
-				break
-			}
-		}
-		if wireFrame == "" {
-			continue
-		}
-		h := g.Header
-		parked := strings.Contains(h, "[chan receive") || strings.Contains(h, "[select") || strings.Contains(h, "[chan send") ||
-			strings.Contains(h, "[sync.RWMutex.RLock") || strings.Contains(h, "[sync.RWMutex.Lock") || strings.Contains(h, "[sync.Mutex.Lock") || strings.Contains(h, "[semacquire") ||
-			strings.Contains(h, "[sync.WaitGroup.Wait") || strings.Contains(h, "[sleep")
-		if !parked {
-			return false, stuckAt, "goroutine still running wire code: " + h + " " + wireFrame
-		}
-		if strings.Contains(h, "Mutex") || strings.Contains(h, "semacquire") {
-			holderHint += "also waiting for a lock: " + g.InnermostLib() + "; "
+	for id, h := range seen {
+		if !cleared[id] {
+			hint += "never seen parked: " + h + "; "
 		}
 	}
-	return true, stuckAt, holderHint
+	return false, stuckAt, hint, lastDump
 }
 
 // cooperative is the fixed sequence of calls a healthy connection answers (each takes one of the connection's locks or
@@ -449,12 +493,12 @@ func runCooperative(w *wireEnv, scenario string, k uint32) coopOutcome {
 	var out coopOutcome
 	for _, st := range coopSteps {
 		ctx, cancel := context.WithTimeout(context.Background(), coopTimeout-5*time.Second)
-		r := guarded(coopTimeout, func() (any, error) { return st.Do(ctx, w.conn, k) })
+		r := guarded(coopTimeout, st.Name, func() (any, error) { return st.Do(ctx, w.conn, k) })
 		cancel()
 		switch {
 		case !r.Returned:
-			dec, at, hint := wedgeVerdict(r.Dump, st.Name)
-			if dec {
+			at, hint := r.StuckAt, r.Hint
+			if r.Decisive {
 				out.Finding = &finding{"after the injected frame a cooperative call never returns: it waits for a connection lock that no running goroutine holds",
 					"hang:wire:" + scenario + ":" + st.Name,
 					map[string]any{"scenario": scenario, "stuck_call": st.Name, "stuck_at": at, "other_waiters": hint, "goroutines": clip(r.Dump, 12000), "broker_events": w.br.snapshot()}}
@@ -494,4 +538,11 @@ func (b *broker) snapshot() map[string]any {
 	b.mu.Lock()
 	defer b.mu.Unlock()
 	return map[string]any{"pings": b.pings, "requests": append([]string(nil), b.requests...), "events": append([]string(nil), b.events...)}
+}
+
+func (b *broker) lastRequestID(typ string) (uint32, bool) {
+	b.mu.Lock()
+	defer b.mu.Unlock()
+	id, ok := b.reqIDs[typ]
+	return id, ok
 }
